@@ -10,7 +10,9 @@ from . import common as C
 
 DISPATCH = {
     "C01": ("harness.ledger", "run"),
+    "C02": ("harness.optimum", "run"),
     "C03": ("harness.rounds", "run"),
+    "C12": ("harness.mono", "run"),
     "C13": ("harness.options", "run"),
     "C14": ("harness.process", "run"),
     "C15": ("harness.process", "run"),
